@@ -43,3 +43,26 @@ Record FilesInvW (w : world) (x : model) : Prop := mkFilesInvW {
 
 Definition RootFull (w : world) (x : model) : Prop :=
   exists rn, w_nodes w (m_root x) = Some rn /\ incl (m_files x) (n_files rn).
+
+(* ---------- witness of the class that breaks (b): the root of the model is not in all of its files ---------- *)
+Module TinyL.
+Import TinyF.
+(* files 0 and 1, package /A = 2; the root is taken out of file 1 (it keeps file 0): root local [0], model files [0;1] *)
+Definition pre : list op :=
+  [OpNewModel; OpCreateFile 0 (BS "f0") 2; OpCreateFile 0 (BS "f1") 2; OpCreateSub 0 nPKGS; OpCreateNamed 1 nPKG (BS "A");
+   OpRemoveFromFile 0 1].
+(* a third file with the package /B only *)
+Definition tB : Parser.etree :=
+  Parser.ENode 0 (0, 0) []
+    [inl (Parser.ENode 1 (1, 1) []
+       [inl (Parser.ENode 2 (2, 2) [] [inl (Parser.ENode 3 (3, 3) [] [inr (Parser.DString (BS "B"))] None)] None)] None)] None.
+Definition ld (w : world) : res (out N * world) := load_parsed tiny 2 99 0 (BS "f2") tB (pstate_of tiny 2 tB) w.
+Definition w_pre : world := after pre.
+Definition w_post : world := match ld w_pre with Val (_, w') => w' | _ => empty_world end.
+(* /A (node 2, only in the model) gets the explicit set of ALL files of the model, its parent inherits [0;2] *)
+Example partial_load :
+  (locals w_pre [0; 1; 2], map m_files (w_models w_pre), files_ok tiny w_pre) = ([[0]; []; []], [[0; 1]], true) /\
+  match ld w_pre with Val (r, w') => Some (r, locals w' [0; 1; 2], effs w' [0; 1; 2], map m_files (w_models w'), files_ok tiny w') | _ => None end =
+  Some (OK 2, [[0; 2]; []; [0; 1]], [Some [0; 2]; Some [0; 2]; Some [0; 1]], [[0; 1; 2]], false).
+Proof. vm_compute. split; reflexivity. Qed.
+End TinyL.
